@@ -22,10 +22,13 @@ class Assembled:
     __slots__ = ("sim", "addrs", "ins", "fields", "listing")
 
 
-def assemble(text, timeout=10, **simkw):
-    """Returns Assembled; lets every exception of load_program through (CaseTimeout on non-termination)."""
+def assemble(text, timeout=10, before=None, **simkw):
+    """Returns Assembled; lets every exception of load_program through (CaseTimeout on non-termination).
+    before: a program loaded into the same (not yet started) simulation first — a load replaces what an earlier load left."""
     sim = RiscvSimulation(**simkw)
     with watchdog(timeout):
+        if before is not None:
+            sim.load_program(before)
         sim.load_program(text)
     a = Assembled()
     a.sim = sim
